@@ -21,7 +21,7 @@ def fold(prop, level, results, info, rep, what):
         if r['status'] == 'skipped':
             rep.extra.setdefault('skipped', []).append('%s: %s' % (key_base, '; '.join(r['notes'])))
             continue
-        inc = [x for x in r['inconclusive']]
+        inc = [x for x in r['inconclusive'] if prop == 'C01' or not x.startswith(('data equivalence', 'accumulator equivalence'))]
         v = r['viol'].get(prop, [])
         if v:
             for msg in v[:3]:
